@@ -598,8 +598,13 @@ def check_scalar_arithmetic(idx: Index, rep: Report):
         out = Rec(rec.cls, dict(rec.fields))
         out.cls_val = rec.cls_val
         out.fields["terms"] = {w: c * k for w, c in rec.fields["terms"].items()}
-        out.fields["constant"] = rec.fields["constant"] * k
         return out
+
+    def get_const(rec):
+        return rec.fields["terms"].get((), 0.0)
+
+    def set_const(rec, v):
+        rec.fields["terms"][()] = v
     forms = {"__iadd__": (1, 1, True), "__add__": (1, 1, False), "__radd__": (1, 1, False), "__isub__": (1, -1, True), "__sub__": (1, -1, False), "__rsub__": (-1, 1, False)}
     n = 0
     for name, (sign_op, sign_s, inplace) in forms.items():
@@ -611,7 +616,8 @@ def check_scalar_arithmetic(idx: Index, rep: Report):
             fo.real_arrays = True
             fo.isinstance_hook = hook
             fo.inherited_dunders = {"__mul__": scaled, "__rmul__": scaled, "__neg__": lambda r, _=None: scaled(r, -1)}
-            r = Rec("FermionOperator", {"terms": {word: t0}, "constant": c0, "n_spinorbitals": None, "n_electrons": None, "spin": None})
+            fo.inherited_props = {"constant": (get_const, set_const)}          # openfermion: the constant is the coefficient of the empty term
+            r = Rec("FermionOperator", {"terms": {word: t0, (): c0}, "n_spinorbitals": None, "n_electrons": None, "spin": None})
             r.cls_val = cls
             try:
                 out = fo.call_funcval(FuncVal(f.node, bound_self=r, home=OPS), [sc], {})
@@ -624,9 +630,9 @@ def check_scalar_arithmetic(idx: Index, rep: Report):
             want_c, want_t = sign_op * c0 + sign_s * exact, sign_op * t0
             if not isinstance(out, Rec):
                 bad.append(f"{type(sc).__name__}({sc}): returns {out!r}")
-            elif abs(complex(out.fields["constant"]) - complex(want_c)) > 1e-12 or abs(complex(out.fields["terms"].get(word, 0)) - want_t) > 1e-12:
-                bad.append(f"{type(sc).__name__}({sc}): constant {complex(out.fields['constant']):g}, term {complex(out.fields['terms'].get(word, 0)):g}; exact result {complex(want_c):g}, {want_t:g}")
-            elif inplace != (out is r) or (not inplace and (r.fields["constant"] != c0 or r.fields["terms"] != {word: t0})):
+            elif abs(complex(get_const(out)) - complex(want_c)) > 1e-12 or abs(complex(out.fields["terms"].get(word, 0)) - want_t) > 1e-12:
+                bad.append(f"{type(sc).__name__}({sc}): constant {complex(get_const(out)):g}, term {complex(out.fields['terms'].get(word, 0)):g}; exact result {complex(want_c):g}, {want_t:g}")
+            elif inplace != (out is r) or (not inplace and r.fields["terms"] != {word: t0, (): c0}):
                 bad.append(f"{type(sc).__name__}({sc}): {'a new object is returned by the in-place form' if inplace else 'the operand is changed by the out-of-place form'}")
         rep.decide(not bad, rule, f, f.node, text=f"FermionOperator.{name} with {len(samples)} kinds of scalar",
                    what="operator and scalar combine to the exact sum / difference for every admitted kind of scalar, on either side, leaving the operand of the out-of-place forms unchanged",
